@@ -1,6 +1,31 @@
+/-
+C04 — Diff reports exactly the rows added, removed and modified between two tables.
+Property theorems only. Model: Model/Diff.lean (pkg/diff/iterate.go, diff.go, BlockIndex.Get).
+Spec: Spec/Diff.lean (`diffVerdict`, the predicate the driver also evaluates on the Go output),
+hypotheses: Spec/DiffWF.lean (`ATable.WF` — what C03 guarantees of a stored table).
+-/
 import WrglModel.Model.Diff
 import WrglModel.Spec.Diff
+import WrglModel.Spec.DiffWF
+import WrglModel.Lemmas.C04
 import WrglModel.Gen.Facts
 namespace Wrgl
-theorem C04_placeholder : True := trivial
+
+/-- tie to the source: the window search returns the empty window for a table without blocks -/
+theorem C04_fact_emptyGuard : Facts.diffEmptyGuard = true := by decide
+
+/-- For any two structurally sound tables with the same key arity — any number of blocks, any key
+    ranges, either side possibly empty — whose hashes identify keys and rows, the differ as
+    implemented (window search over the table indices, cached block-index slices, bisection in each
+    block index, two passes) does not panic or fail, and its events are exactly: one `added` per key
+    only in the first table, one `removed` per key only in the second, one `modified` per key in
+    both with different content, nothing else, no key twice, every offset addressing its row. -/
+theorem C04_diff_exact (arity : Nat) (harity : 0 < arity) (t1 t2 : ATable)
+    (h1 : t1.WF Facts.blockSize arity) (h2 : t2.WF Facts.blockSize arity)
+    (hk : HashInj t1 t2) (hr : RowHashInj t1 t2) :
+    ∃ evs, diffRows Facts.diffEmptyGuard Facts.blockSize t1.toD t2.toD = .ok evs ∧
+      diffVerdict t1.allRows t2.allRows evs = [] := by
+  rw [C04_fact_emptyGuard]
+  exact diffRows_exact Facts.blockSize arity (by decide) harity t1 t2 h1 h2 hk hr
+
 end Wrgl
